@@ -476,6 +476,17 @@ func ruleFileWatch(c *Ctx, prefix string) {
 				case *ssa.UnOp:
 					if x.Op.String() == "<-" {
 						recv = true
+						// ... from the watcher's own event channel: an intermediate channel (a coalescing
+						// or debouncing stage) can drop or reorder the event that announces the last update
+						fromEvents := false
+						if ld, ok := x.X.(*ssa.UnOp); ok {
+							if fa, ok := ld.X.(*ssa.FieldAddr); ok && fieldName(fa) == "Events" && strings.HasSuffix(namedOf(fa.X.Type()), "fsnotify.Watcher") {
+								fromEvents = true
+							}
+						}
+						if !fromEvents {
+							bad = append(bad, fmt.Sprintf("the reload loop receives at %s from a channel that is not the watcher's Events channel itself: events can be dropped or merged before they cause a reload", c.P.InstrPos(in)))
+						}
 					}
 				case *ssa.Return, *ssa.Panic:
 					bad = append(bad, fmt.Sprintf("the watcher leaves its loop at %s: after one failed (or any) reload later updates are never picked up", c.P.InstrPos(in)))
